@@ -45,12 +45,14 @@ def interp_path(v):
     return os.path.join(PYROOT, VERSIONS[v], "bin", "python")
 
 
-def worker_env(v):
+def worker_env(v, stage=1):
     env = dict(os.environ)
     shim = os.path.join(HERE, "shim")
     env["PYTHONPATH"] = REPO + os.pathsep + shim
     env["PYTHONDONTWRITEBYTECODE"] = "1"
-    env["PYTHONHASHSEED"] = "0"
+    # fixed string-hash seed: 0 in stage 1, 1 in stage 2 (so that anything carried from
+    # one stage to the next also crosses a hash-seed boundary)
+    env["PYTHONHASHSEED"] = str(stage - 1)
     env["VERIF_REPO"] = REPO
     env["CODE_DATA_VERIF"] = "1"
     env.pop("PYTHONSTARTUP", None)
@@ -89,7 +91,7 @@ def matches(entry, prop, rec):
     return True
 
 
-def run_shards(prop, tier, seed, versions, nshards_per, workdir, extra_args=()):
+def run_shards(prop, tier, seed, versions, nshards_per, workdir, extra_args=(), stage=1):
     jobs = []
     for v in versions:
         for s in range(nshards_per):
@@ -120,7 +122,7 @@ def run_shards(prop, tier, seed, versions, nshards_per, workdir, extra_args=()):
         while pending and len(running) < NCPU:
             v, s, cmd, out = pending.pop(0)
             log = open(out + ".log", "w")
-            p = subprocess.Popen(cmd, stdout=log, stderr=subprocess.STDOUT, env=worker_env(v), cwd=workdir)
+            p = subprocess.Popen(cmd, stdout=log, stderr=subprocess.STDOUT, env=worker_env(v, stage), cwd=workdir)
             running.append((p, v, s, out, log))
         time.sleep(0.05)
         still = []
@@ -185,7 +187,7 @@ def main():
         for stage in range(1, meta.get("stages", 1) + 1):
             stagedir = os.path.join(workdir, "stage%d" % stage)
             os.makedirs(stagedir)
-            results += run_shards(prop, tier, seed, versions, nshards, stagedir, ["--stage", str(stage), "--shared", shared])
+            results += run_shards(prop, tier, seed, versions, nshards, stagedir, ["--stage", str(stage), "--shared", shared], stage)
         post = {}
         if meta.get("post"):
             post = POST[meta["post"]](shared)
